@@ -455,6 +455,33 @@ def run(ctx):
     ts = [(b, e) for b, e in A.return_exprs(rt, rr) if "TooShort" in A.show(e)]
     ctx.check(len(ts) == 1, "C09.6", "read_tcp_bytes:early-close", "EOF before the announced length => TooShort", "early close is not an error", rt.loc())
 
+    # EOF (read returned 0) before the announced length leaves the read loop: from that edge the read call is reached
+    # again only across a `len >= expected` edge followed by the loop's own `len < expected` test - a contradiction
+    reads = [b for b, t in A.call_blocks(rt, A.name_is("tokio::io::AsyncReadExt::read_buf"))]
+    def read_count(x):
+        return any(y[0] == "await" and A.peel(y[1])[0] == "call" and A.peel(y[1])[1].endswith("AsyncReadExt::read_buf") for y in A.walk(x))
+    def is_zero(v):
+        v = A.peel(v)
+        return v[0] == "const" and v[2] == 0
+    eof = rc.edges_where(lambda fc: (fc[0] == "inteq" and fc[2] == 0 and read_count(fc[1])) or
+                         (fc[0] == "cmp" and fc[1] == "Eq" and ((read_count(fc[2]) and is_zero(fc[3])) or (read_count(fc[3]) and is_zero(fc[2])))))
+    ctx.floor("C09.6", "places where the read loop sees EOF (read returned 0)", len(eof), 1)
+    def len_test(op):
+        return lambda fc: fc[0] == "cmp" and ((fc[1] == op and bool(Call("len")(fc[2])) and any(x[0] == "await" for x in A.walk(fc[3]))) or
+                                              (fc[1] == A.SWAP[op] and bool(Call("len")(fc[3])) and any(x[0] == "await" for x in A.walk(fc[2]))))
+    ge_edges = rc.edges_where(len_test("Ge"))
+    lt_edges = rc.edges_where(len_test("Lt"))
+    for a, s_ in eof:
+        first = rt.reachable(s_, removed_edges=ge_edges)
+        direct = [b for b in reads if b in first]
+        later = set()
+        for x, y in ge_edges:
+            if x in first:
+                later |= rt.reachable(y, removed_edges=lt_edges)
+        again = [b for b in reads if b in later]
+        ctx.check(bool(reads) and not direct and not again, "C09.6", "read_tcp_bytes:eof-leaves-loop", "after read() returned 0 with the message incomplete, the stream is not read again",
+                  "after EOF the loop reads again (spins on a closed connection, no reply is ever produced)", rt.loc(a))
+
     # ---------------------------------------------------------------- C09.11
     def len_upper(fc):
         """strict upper bound on bytes.len() implied by one edge fact, or None"""
